@@ -112,7 +112,9 @@ def stepThread (s : PState) (i : Nat) : PState :=
     match t.pc with
     | .ready => s
     | .begun start =>
-      if s.permits > 0 then { (s.setThread i { t with pc := .havePermit start }) with permits := s.permits - 1 }
+      -- `if batch.is_empty() { return Ok(()) }` comes before the permit
+      if t.req.keys.isEmpty then s.setThread i { t with pc := .ready, results := .ok :: t.results }
+      else if s.permits > 0 then { (s.setThread i { t with pc := .havePermit start }) with permits := s.permits - 1 }
       else s
     | .havePermit start =>
       -- critical section under write_mutex
